@@ -40,3 +40,102 @@ func H_C11_DecodeHostile() {
 		vCover("c11.hostile.err")
 	}
 }
+
+func init() {
+	vRegister("H_C11_Budget", H_C11_Budget)
+	vRegister("H_C11_Count", H_C11_Count)
+}
+
+// C11 budget: no packet assembled from queued broadcasts exceeds UDPBufferSize on the wire.
+func H_C11_Budget() {
+	c := &vNetCfg{enc: vPick(3), crc: vPick(2) == 1}
+	c.label = string(vBytes([]int{0, 3}[vPick(2)]))
+	if c.enc != 0 {
+		c.key = vBytes(16)
+	}
+	conf := vBaseConfig()
+	c.apply(conf)
+	// the message the broadcasts are piggybacked on always fits on its own (59 = label 5 + crc 5 + encryption 45
+	// + compound header 4); what is decided is whether adding queued broadcasts can overflow the buffer
+	pingBuf, perr := encode(pingMsg, &ping{SeqNo: vU32(), Node: vPeerA}, false)
+	vAssert(perr == nil, "c11.budget.encode")
+	first := pingBuf.Bytes()
+	conf.UDPBufferSize = len(first) + 59 + vRange(0, 40)
+	f := vNewML(conf)
+	m := f.m
+	f.del = &vDelegateRec{}
+	conf.Delegate = f.del
+	f.vAddSelf(3, nil)
+	peer := f.vAddConcreteAlive(vPeerA, 2)
+	if c.crc {
+		peer.PMax = 5
+	} else {
+		peer.PMax = 2
+	}
+	m.nodeMap["10.0.0.2"] = peer
+	// queued membership broadcasts of three different sizes, user broadcasts of two sizes
+	vOpt("enclen", 3)
+	m.encodeBroadcastNotify("x", suspectMsg, &suspect{Node: "x"}, nil)
+	vOpt("enclen", 6)
+	m.encodeBroadcastNotify("y", suspectMsg, &suspect{Node: "y"}, nil)
+	vOpt("enclen", 11)
+	m.encodeBroadcastNotify("z", suspectMsg, &suspect{Node: "z"}, nil)
+	vOpt("enclen", 3)
+	f.del.bcast = [][]byte{vBytes(1), vBytes(2), vBytes(0)}
+	to := Address{Addr: "10.0.0.2:7946", Name: vPeerA}
+	if vPick(2) == 0 {
+		vAssert(m.sendMsg(to, first) == nil, "c11.budget.send-ok")
+		vAssert(len(f.tr.packets) >= 1, "c11.budget.sent")
+	} else {
+		m.gossip() // may legitimately send nothing when no broadcast fits
+	}
+	for _, pkt := range f.tr.packets {
+		vAssert(len(pkt) <= conf.UDPBufferSize, "c11.budget.packet-fits-udp-buffer")
+	}
+	vCover("c11.budget")
+}
+
+// C11 count fidelity: however many messages are piggybacked, the receiver unpacks exactly those messages.
+func H_C11_Count() {
+	conf := vBaseConfig()
+	conf.UDPBufferSize = 1400
+	f := vNewML(conf)
+	m := f.m
+	f.del = &vDelegateRec{}
+	conf.Delegate = f.del
+	vUnwind(700)
+	f.vAddSelf(3, nil)
+	f.vAddConcreteAlive(vPeerA, 2).PMax = 2 // no CRC header, so that packets can be unpacked directly
+	k := []int{1, 254, 255, 300}[vPick(4)]
+	for i := 0; i < k; i++ {
+		f.del.bcast = append(f.del.bcast, nil) // empty user messages: 1 framed byte + 2 bytes overhead each
+	}
+	to := Address{Addr: "10.0.0.2:7946", Name: vPeerA}
+	viaGossip := vPick(2) == 1
+	first := []byte{byte(userMsg), vU8(), vU8()}
+	if viaGossip {
+		m.gossip()
+	} else {
+		vAssert(m.sendMsg(to, first) == nil, "c11.count.send-ok")
+	}
+	// receiver side: unpack every packet with the real decoder
+	var got [][]byte
+	for _, pkt := range f.tr.packets {
+		if len(pkt) > 0 && pkt[0] == byte(compoundMsg) {
+			trunc, parts, err := decodeCompoundMessage(pkt[1:])
+			vAssert(err == nil && trunc == 0, "c11.count.decodes")
+			got = append(got, parts...)
+		} else {
+			got = append(got, pkt)
+		}
+	}
+	want := f.del.bcastReturned
+	if !viaGossip {
+		want++
+	}
+	vAssert(len(got) == want, "c11.count.receiver-sees-every-message")
+	if !viaGossip && len(got) > 0 {
+		vAssert(vEqBytes(got[0], first), "c11.count.first-message-intact")
+	}
+	vCover("c11.count")
+}
